@@ -61,6 +61,10 @@ type report struct {
 	Other     string   `json:"other,omitempty"`
 	Perturbed []string `json:"perturbed,omitempty"`
 	Steps     int64    `json:"steps"`
+	// CanonicalUnstable: the canonical schedule itself gave different trees
+	// when repeated - the difference comes from something the simulator does
+	// not own (go/packages' parser goroutines), not from the schedule
+	CanonicalUnstable bool `json:"canonical_unstable"`
 }
 
 func main() {
@@ -82,9 +86,17 @@ func main() {
 	}
 	rep := report{FirstBad: -1}
 	seen := map[string]bool{}
+	order := make([]int, 0, nsched+3)
 	for k := 0; k < nsched; k++ {
+		order = append(order, k)
+	}
+	order = append(order, 0, 0, 0) // the canonical schedule again: it must reproduce itself
+	for pos, k := range order {
 		if only >= 0 && k != 0 && k != only {
 			continue
+		}
+		if pos >= nsched && rep.FirstBad < 0 {
+			break // nothing differed: no need to re-check the canonical schedule
 		}
 		outDir := filepath.Join(work, fmt.Sprintf("out-%d", k))
 		os.RemoveAll(outDir)
@@ -140,6 +152,12 @@ func main() {
 		d = strings.ReplaceAll(d, outDir, "<out>")
 		os.RemoveAll(outDir)
 		rep.Schedules++
+		if pos >= nsched {
+			if d != rep.Canonical {
+				rep.CanonicalUnstable = true
+			}
+			continue
+		}
 		if k == 0 {
 			rep.Canonical = d
 		} else if d != rep.Canonical && rep.FirstBad < 0 {
